@@ -39,6 +39,7 @@ def check(c: Check):
     clause_d(c)
     clause_e(c)
     clause_f(c)
+    clause_g(c)
 
 
 def _const(v):
@@ -248,6 +249,8 @@ def clause_d(c: Check):
 
     check_bool_fold(c, 'C06-d', ix.func(CM + ':Conjunction.matches_w_trace'), elem, 'ALL')
     check_bool_fold(c, 'C06-d', ix.func(CM + ':Disjunction.matches_w_trace'), elem, 'ANY')
+    for cname, stop in (('Conjunction', 'F'), ('Disjunction', 'T')):
+        _operands_applied_in_given_order(c, ix.cls(CM + ':' + cname), stop, elem)
     # negation
     neg = ix.func(CM + ':Negation.matches_w_trace')
     mr = ix.cls('exactly_lib.type_val_prims.matcher.matching_result:MatchingResult')
@@ -263,70 +266,534 @@ def clause_d(c: Check):
                  'the negation of a %s operand is %s' % ('matching' if lab[0] == 'T' else 'non-matching', got), neg.loc())
 
 
+def _operands_applied_in_given_order(c: Check, cls: ClassDef, stop: str, elem):
+    """the combinator constructed from operands [o0, o1, o2] applies o0, then o1, then o2 - to the (frozen) model it
+    was given - and nothing after the deciding operand: decided on the object its own constructor builds, so that
+    a reordering anywhere between constructor and application is seen"""
+    ix, fo = c.ix, c.fo
+    mr = ix.cls('exactly_lib.type_val_prims.matcher.matching_result:MatchingResult')
+    init = ix.class_member(cls, '__init__')
+    c.require(isinstance(init, FuncDef), 'C06-d: %s has no constructor' % cls.name)
+    op_params = [p.arg for p in init.positional_params()[1:] if 'operand' in p.arg]
+    c.require(len(op_params) == 1, 'C06-d: operands parameter of %s not found' % init.key)
+    m = ix.class_member(cls, 'matches_w_trace')
+    hooks = ForkHooks(ix, loop_bound=3)
+    hooks.fork_on(elem, [('T', lambda: K(Record(mr, {'value': True, 'trace': Sym('trace')}))),
+                         ('F', lambda: K(Record(mr, {'value': False, 'trace': Sym('trace')})))])
+    hooks.inline_set = {f for k in ix.mro(cls) if isinstance(k, ClassDef) for f in [k.methods.get('__init__')]
+                        if f is not None and k.module.name == cls.module.name}
+    it = Interp(ix, fo, hooks)
+    n = 0
+    for width in (2, 3):
+        ops = [Sym('operand%d' % i, nullness=False, truth=True) for i in range(width)]
+        for obj, st in it.instantiate(cls, State(), {op_params[0]: ListVal(list(ops))}):
+            for p in it.run_function(m, {}, st, recv=obj):
+                c.count()
+                calls = [e for e in p.trace if e.kind == 'call' and 'label' in e.data]
+                labs = [e.data['label'] for e in calls]
+                recvs = [_receiver(e) for e in calls]
+                want_n = (labs.index(stop) + 1) if stop in labs else width
+                in_order = len(calls) == want_n and all(recvs[i] is ops[i] for i in range(len(calls)))
+                n += 1
+                c.expect(in_order, 'C06-d', '%s/applies-operands-in-given-order' % cls.name,
+                         '%s of %d operands with results %s applies %s (expected the operands in the order given, up to '
+                         'the deciding one)' % (cls.name, width, labs, [
+                             ('operand%d' % ops.index(r)) if any(r is o for o in ops) else util.describe(r) for r in recvs]),
+                         m.loc())
+    c.floor('C06-d', 'evaluations of %s on explicit operand lists' % cls.name, n, 6)
+
+
+def _receiver(e):
+    r = e.data.get('recv')
+    if r is None:
+        cv = e.data.get('callee_val')
+        if isinstance(cv, Sym) and cv.origin and cv.origin[0] == 'attr':
+            r = cv.origin[1]
+    return r
+
+
+def clause_g(c: Check):
+    """| : the sequence transformer is the left-to-right composition of its operands; identity operands may be
+    skipped, and the sequence reports itself as identity exactly when every operand is"""
+    ix, fo = c.ix, c.fo
+    cls = ix.cls('exactly_lib.impls.types.string_transformer.impl.sequence:SequenceStringTransformer')
+    st_cls = ix.cls('exactly_lib.type_val_prims.string_transformer:StringTransformer')
+    init = ix.class_member(cls, '__init__')
+    pp = [p.arg for p in init.positional_params()[1:]]
+    c.require(len(pp) == 1, 'C06-g: SequenceStringTransformer.__init__ does not take one sequence')
+    transform = ix.class_member(cls, 'transform')
+    ident = ix.class_member(cls, 'is_identity_transformer')
+    c.require(isinstance(transform, FuncDef) and isinstance(ident, FuncDef) and ident.is_property,
+              'C06-g: transform / is_identity_transformer of the sequence not found')
+
+    class H(Hooks):
+        loop_bound = 4
+
+        def inline(self, fd, st):
+            return fd in (ident, init)
+
+    n = 0
+    import itertools
+    for width in (0, 1, 2, 3):
+        for flags in itertools.product((False, True), repeat=width):
+            it = Interp(ix, fo, H())
+            st0 = State()
+            ops = []
+            for i, is_id in enumerate(flags):
+                o = it.new_obj(st_cls)
+                st0.heap[(o.oid, 'is_identity_transformer')] = K(is_id)
+                ops.append(o)
+            desc = '[%s]' % ', '.join('identity' if f else 't%d' % i for i, f in enumerate(flags))
+            insts = it.instantiate(cls, st0, {pp[0]: ListVal(list(ops))})
+            c.require(len(insts) == 1, 'C06-g: constructor of the sequence has %d paths for %s' % (len(insts), desc))
+            obj, st = insts[0]
+            n += 1
+            c.count()
+            # identity flag
+            vals = [v for k, v, s_ in it.get_attr(obj, 'is_identity_transformer', st.fork())]
+            got = vals[0].v if len(vals) == 1 and isinstance(vals[0], K) else None
+            c.expect(got is all(flags), 'C06-g', 'sequence/is-identity',
+                     'the sequence of %s reports is_identity_transformer=%s (a sequence that is wrongly taken for the '
+                     'identity is dropped by an enclosing sequence)' % (desc, got if got is not None else '?'), cls.loc())
+            # application
+            model = Sym('model')
+            paths = it.run_function(transform, {transform.positional_params()[1].arg: model}, st.fork(), recv=obj)
+            ok = len(paths) == 1 and paths[0].kind == 'return'
+            applied, cur = [], model
+            if ok:
+                p = paths[0]
+                for idx, e in enumerate(p.trace):
+                    if e.kind != 'call':
+                        continue
+                    r = e.data.get('recv')
+                    if not any(r is o for o in ops):
+                        continue
+                    a = e.data['args'][0] if e.data['args'] else None
+                    if e.data.get('callee') is None or getattr(e.data['callee'], 'name', '') != 'transform' or a is not cur:
+                        ok = False
+                        break
+                    applied.append([i for i, o in enumerate(ops) if r is o][0])
+                    cur = idx
+                    # the value of this call
+                    cur = next((x for x in _call_values(p, idx)), None)
+                    if cur is None:
+                        ok = False
+                        break
+                ok = ok and p.val is cur
+            want = [i for i, f in enumerate(flags) if not f]
+            full = list(range(width))
+            c.expect(ok and applied in (want, full), 'C06-g', 'sequence/left-to-right-composition',
+                     'the sequence of %s applies operands %s%s (expected %s, each to the result of the one before, the '
+                     'last result returned)' % (desc, applied, '' if ok else ' with broken threading', want), transform.loc())
+    c.floor('C06-g', 'operand lists the sequence transformer is evaluated on', n, 15)
+
+
+def _call_values(p, ev_idx):
+    """abstract values in the final state that are the result of call event ev_idx"""
+    seen = []
+    def visit(v):
+        if isinstance(v, Sym) and v.origin and v.origin[0] == 'call' and v.origin[5] == ev_idx:
+            seen.append(v)
+    for f in p.state.frames:
+        for v in f.env.values():
+            visit(v)
+    visit(p.val)
+    for v in p.state.heap.values():
+        visit(v)
+    for e in p.trace:
+        if e.kind == 'call':
+            for a in e.data.get('args', []):
+                visit(a)
+    return seen
+
+
 # ---------------------------------------------------------------- e
+_PAREN, _ANY = 'inside-parentheses', 'next-expression-on-any-line'
+_QUERY = 'consume_optional_constant_string_that_must_be_unquoted_and_equal'
+
+
+class _Reference:
+    """The documented reading of `operand (OP operand)*` per precedence level, driven by the same answers of the
+    token stream ("is the next token one of these operators?") as the analysed parser:
+      - level i operands are expressions of level i+1; the last level's operands are primitives
+      - a run of one operator gives one n-ary expression of the operands in source order; a following run at the
+        same level takes the expression so far as its first operand (left associative)
+      - outside parentheses an operator must be on the current line; the operand after an operator may start on a
+        following line; inside parentheses line breaks are permitted everywhere"""
+
+    def __init__(self, answers: List[str], n_levels: int):
+        self.answers = list(answers)
+        self.n = n_levels
+        self.events = []
+        self.n_leaf = 0
+        self.n_name = 0
+        self.exhausted = False
+
+    def ask(self, what, must_be_on_current_line: bool):
+        if not self.answers:
+            self.exhausted = True
+            raise StopIteration
+        a = self.answers.pop(0)
+        self.events.append(('query', what, must_be_on_current_line, a))
+        if a == 'none':
+            return None
+        self.n_name += 1
+        return self.n_name - 1
+
+    def level(self, i: int, mode):
+        if i == self.n:
+            self.events.append(('primitive', mode is None))
+            self.n_leaf += 1
+            return ('primitive', self.n_leaf - 1)
+        cur = self.level(i + 1, mode)
+        if mode == _ANY:
+            mode = None
+        while True:
+            name = self.ask(('operators-of-level', i), mode is None)
+            if name is None:
+                return cur
+            operands = [cur]
+            while True:
+                operands.append(self.level(i + 1, _PAREN if mode == _PAREN else _ANY))
+                if self.ask(('operator', name), mode != _PAREN) is None:
+                    break
+            cur = ('op', i, name, operands)
+
+
+def _fmt_tree(t) -> str:
+    if t is None:
+        return '?'
+    if t[0] == 'primitive':
+        return 'p%d' % t[1]
+    if t[0] == 'op':
+        return '(L%d:%s)' % (t[1], (' op%s ' % t[2]).join(_fmt_tree(x) for x in t[3]))
+    return str(t)
+
+
 def clause_e(c: Check):
-    """precedence climbing: def-use shape of _Parser.parse_w_infix_ops"""
+    """precedence climbing, associativity and layout: the parser is evaluated abstractly against every sequence of
+    answers of the token stream (bounded) and compared with the documented reading"""
+    ix, fo = c.ix, c.fo
+    pcls = ix.cls(PA + ':_Parser')
+    m = ix.module(PA)
+    modes = {}
+    for const, tag in (('_IS_INSIDE_PARENTHESES', _PAREN), ('_NEXT_EXPR_ON_ANY_LINE', _ANY)):
+        v = fo.fold_path(PA + ':' + const)
+        c.require(not is_unknown(v) and v is not None, 'C06-e: layout mode constant %s not found' % const)
+        modes[tag] = v
+    c.require(modes[_PAREN] != modes[_ANY], 'C06-e: the two layout modes have the same value')
+    inline = ['parse_w_maybe_infix_ops', 'parse_w_infix_ops', 'parse_optional_infix_op_name',
+              'infix_op_sequence_for_single_op']
+    fds = []
+    for n in inline:
+        f = ix.class_member(pcls, n)
+        c.require(isinstance(f, FuncDef), 'C06-e: _Parser.%s not found' % n)
+        fds.append(f)
+    nested = [f for f in m.all_funcs if f.parent in fds]
+    prim = ix.class_member(pcls, 'parse_mandatory_primitive')
+    c.require(isinstance(prim, FuncDef), 'C06-e: _Parser.parse_mandatory_primitive not found')
+    entry = fds[0]
+    pp = [p.arg for p in entry.positional_params()[1:]]
+    c.require(len(pp) == 2, 'C06-e: parse_w_maybe_infix_ops does not take (layout mode, levels)')
+
+    def is_query(d, n, cv):
+        return isinstance(n.func, ast.Attribute) and n.func.attr == _QUERY
+
+    n_paths = 0
+    # bounds: one level with up to 3 runs of up to 4 operands; two levels with one run of up to 3 operands per
+    # level and operand (two levels with longer runs is beyond reach: the number of answer sequences explodes)
+    for n_levels, bound in ((1, 3), (2, 1)):
+        # the two modes every entry point starts with (entry-point and parenthesis obligations below)
+        for mode_tag in (_ANY, _PAREN):
+            hooks = ForkHooks(ix, loop_bound=bound)
+            hooks.max_recursion = n_levels + 2
+            hooks.inline_set = set(fds) | set(nested)
+            hooks.fork_on(is_query, [('none', lambda: NONE),
+                                     ('op', lambda: Sym('operator-name', truth=True, nullness=False))])
+            it = Interp(ix, fo, hooks)
+            levels = [Sym('level%d' % i) for i in range(n_levels)]
+            paths = it.run_function(entry, {pp[0]: K(modes[mode_tag] if mode_tag else None), pp[1]: ListVal(levels)})
+            c.count(len(paths))
+            for p in paths:
+                n_paths += 1
+                _judge_infix_path(c, p, levels, mode_tag, prim, entry)
+    c.floor('C06-e', 'token-answer sequences the infix parser is evaluated on', n_paths, 200)
+    _clause_e_primitive(c, pcls, prim, modes)
+    _clause_e_entry_points(c, pcls, modes)
+
+
+def _judge_infix_path(c: Check, p, levels, mode_tag, prim, entry):
     ix = c.ix
-    f = ix.func(PA + ':_Parser.parse_w_infix_ops')
-    levels = [p.arg for p in f.positional_params() if 'levels' in p.arg]
-    c.require(len(levels) == 1, 'C06-e: levels parameter of parse_w_infix_ops not found')
-    lv = levels[0]
-    b = f.local_bindings()
-    cur = [n for n, bs in b.items() if any(x[0] == 'assign' and x[1] is not None and unparse(x[1]) == lv + '[0]' for x in bs)]
-    nxt = [n for n, bs in b.items() if any(x[0] == 'assign' and x[1] is not None and unparse(x[1]) == lv + '[1:]' for x in bs)]
-    c.expect(len(cur) == 1 and len(nxt) == 1, 'C06-e', 'parse_w_infix_ops/levels-split',
-             'the levels are not split into current (%s[0]) and strictly remaining (%s[1:])' % (lv, lv), f.loc())
-    if len(cur) != 1 or len(nxt) != 1:
+    labs = labels_of(p)
+    key_base = 'infix/%d-levels/%s' % (len(levels), mode_tag or 'operators-on-current-line')
+    where = entry.loc()
+    if p.kind != 'return':
+        c.bad('C06-e', key_base + '/raises', 'the infix parser raises %s for the token answers %s' % (
+            util.describe(p.val), labs), where)
         return
-    cur, nxt = cur[0], nxt[0]
-    # operands: parsed with the remaining levels only
-    operand_calls = [n for n in ast.walk(f.node) if isinstance(n, ast.Call) and isinstance(n.func, ast.Attribute)
-                     and n.func.attr in ('parse_w_maybe_infix_ops', 'infix_op_sequence_for_single_op')]
-    ok = bool(operand_calls)
-    for call in operand_calls:
-        names = {x.id for a in call.args + [k.value for k in call.keywords] for x in ast.walk(a) if isinstance(x, ast.Name)}
-        if lv in names:
-            ok = False
-        if call.func.attr == 'parse_w_maybe_infix_ops' and nxt not in names:
-            ok = False
-        if call.func.attr == 'infix_op_sequence_for_single_op' and nxt not in names:
-            ok = False
-    c.expect(ok, 'C06-e', 'parse_w_infix_ops/operands-use-higher-levels',
-             'operands of a level are not parsed with the strictly higher-precedence levels only', f.loc())
-    # operators: looked up among the names of the current level
-    names_var = [n for n, bs in b.items() if any(x[0] == 'assign' and x[1] is not None and unparse(x[1]) == cur + '.keys()' for x in bs)]
-    ok = len(names_var) == 1
-    if ok:
-        for call in ast.walk(f.node):
-            if isinstance(call, ast.Call) and isinstance(call.func, ast.Attribute) and call.func.attr == 'parse_optional_infix_op_name':
-                if names_var[0] not in [unparse(a) for a in call.args]:
-                    ok = False
-        subs = [n for n in ast.walk(f.node) if isinstance(n, ast.Subscript) and unparse(n.value) == cur]
-        ok = ok and len(subs) >= 1
-    c.expect(ok, 'C06-e', 'parse_w_infix_ops/operators-of-current-level',
-             'operators are not looked up in the current precedence level', f.loc())
-    # parenthesised expression: the full grammar again, then a mandatory )
-    pm = ix.func(PA + ':_Parser.parse_mandatory_primitive')
-    src = unparse(pm.node)
-    ok = 'self.parse(_IS_INSIDE_PARENTHESES)' in src and 'self.consume_mandatory_end_parentheses()' in src \
-         and src.index('self.parse(_IS_INSIDE_PARENTHESES)') < src.index('self.consume_mandatory_end_parentheses()')
-    c.expect(ok, 'C06-e', 'parse_mandatory_primitive/parentheses', 'a parenthesised expression is not parsed with the '
-                                                                   'full grammar followed by a mandatory )', pm.loc())
-    ok = 'self.parse_mandatory_primitive(' in src and 'mk_prefix_op_expr(expression)' in src
-    c.expect(ok, 'C06-e', 'parse_mandatory_primitive/prefix-operator-binds-primitive',
-             'a prefix operator is not applied to the following primitive only', pm.loc())
-    # parse() starts with all levels of the grammar
-    p0 = ix.func(PA + ':_Parser.parse')
-    r = single_return_expr(p0)
-    ok = r is not None and 'self.grammar.infix_ops_inc_precedence' in unparse(r)
-    c.expect(ok, 'C06-e', 'parse/starts-with-all-levels', 'parsing does not start from the lowest precedence level', p0.loc())
-    # operand sequence of one operator is kept in order and handed to the operator
-    sq = ix.func(PA + ':_Parser.infix_op_sequence_for_single_op')
-    src = unparse(sq.node)
-    ok = 'operands = [first_operand]' in src and 'operands.append(next_operand)' in src \
-         and 'return operator.mk_expression(operands)' in src
-    c.expect(ok, 'C06-e', 'infix_op_sequence_for_single_op/operands-in-order', 'operands are not collected in source '
-                                                                              'order', sq.loc())
+    # what the parser did: primitives parsed and questions asked, in order
+    got, names = _scan_events(p, levels, prim)
+    ref = _Reference(labs, len(levels))
+    want_tree = None
+    try:
+        want_tree = ref.level(0, mode_tag)
+    except (StopIteration, RuntimeError):
+        pass
+    if ref.exhausted or ref.answers:
+        c.bad('C06-e', key_base + '/questions-asked',
+              'for the token answers %s the parser asks %d questions; the documented reading asks %s' % (
+                  labs, len(labs), 'more' if ref.exhausted else 'fewer'), where)
+        return
+    for i, (g, w) in enumerate(zip(got, ref.events)):
+        if g == w:
+            continue
+        if g[0] != w[0]:
+            c.bad('C06-e', key_base + '/step-order', 'answers %s, step %d: the parser does %s where the documented '
+                                                     'reading does %s' % (labs, i, g, w), where)
+        elif g[0] == 'primitive':
+            c.bad('C06-e', key_base + '/primitive-line-break',
+                  'answers %s, step %d: primitive parsed with must_be_on_current_line=%s, documented %s' % (
+                      labs, i, g[1], w[1]), where)
+        elif g[1] != w[1]:
+            c.bad('C06-e', key_base + '/operators-asked-for',
+                  'answers %s, step %d: the parser looks for %s where the documented reading looks for %s' % (
+                      labs, i, g[1], w[1]), where)
+        else:
+            c.bad('C06-e', key_base + '/operator-line-break',
+                  'answers %s, step %d: operator %s looked for with must_be_on_current_line=%s, documented %s '
+                  '(outside parentheses an operator ends at the line end; inside parentheses line breaks are free)' % (
+                      labs, i, g[1], g[2], w[2]), where)
+        return
+    if len(got) != len(ref.events):
+        c.bad('C06-e', key_base + '/step-order', 'answers %s: the parser does %d steps, the documented reading %d' % (
+            labs, len(got), len(ref.events)), where)
+        return
+    tree = _tree_of(p, p.val, levels, prim, names)
+    c.expect(tree == want_tree, 'C06-e', key_base + '/structure',
+             'answers %s: the expression is built as %s, the documented structure is %s' % (
+                 labs, _fmt_tree(tree), _fmt_tree(want_tree)), where)
+    c.ok('C06-e', key_base + '/layout-and-order')
+
+
+def _scan_events(p, levels, prim):
+    """-> (steps of the parser in order, {event index of an answered operator name: ordinal})"""
+    names, got = {}, []
+    for idx, e in enumerate(p.trace):
+        if e.kind != 'call':
+            continue
+        d = e.data
+        if d.get('callee') == prim:
+            a = d['args'][0] if d['args'] else d['kwargs'].get('must_be_on_current_line')
+            got.append(('primitive', a.v if isinstance(a, K) else '?'))
+        elif 'label' in d:
+            args = d['args']
+            ops = args[0] if args else None
+            line = args[1] if len(args) > 1 else d['kwargs'].get('must_be_on_current_line')
+            what = ('?', util.describe(ops))
+            o = ops.origin if isinstance(ops, Sym) else None
+            if o and o[0] == 'call' and isinstance(o[4].func, ast.Attribute) and o[4].func.attr == 'keys':
+                cvv = p.trace[o[5]].data.get('callee_val') if o[5] is not None else None
+                recv = cvv.origin[1] if isinstance(cvv, Sym) and cvv.origin and cvv.origin[0] == 'attr' else None
+                for li, l in enumerate(levels):
+                    if recv is l:
+                        what = ('operators-of-level', li)
+            elif isinstance(ops, ListVal) and len(ops.items) == 1 \
+                    and getattr(ops.items[0], 'event_idx', None) in names:
+                what = ('operator', names[ops.items[0].event_idx])
+            got.append(('query', what, line.v if isinstance(line, K) else '?', d['label']))
+            if d['label'] == 'op':
+                names[idx] = len(names)
+    return got, names
+
+
+def _tree_of(p, v, levels, prim, names):
+    o = v.origin if isinstance(v, Sym) else None
+    if not o or o[0] != 'call':
+        return ('?', util.describe(v))
+    ev = p.trace[o[5]] if o[5] is not None else None
+    if ev is not None and ev.data.get('callee') == prim:
+        n = len([1 for e in p.trace[:o[5]] if e.kind == 'call' and e.data.get('callee') == prim])
+        return ('primitive', n)
+    node = o[4]
+    if isinstance(node.func, ast.Attribute) and node.func.attr == 'mk_expression' and ev is not None:
+        cv = ev.data.get('callee_val')
+        opv = cv.origin[1] if isinstance(cv, Sym) and cv.origin and cv.origin[0] == 'attr' else None
+        oo = opv.origin if isinstance(opv, Sym) else None
+        if oo and oo[0] == 'index':
+            base, idx = oo[1], oo[2]
+            li = [i for i, l in enumerate(levels) if base is l]
+            ni = names.get(getattr(idx, 'event_idx', None))
+            args = o[2]
+            items = args[0].items if args and isinstance(args[0], ListVal) else None
+            if li and ni is not None and items is not None:
+                return ('op', li[0], ni, [_tree_of(p, x, levels, prim, names) for x in items])
+    return ('?', util.describe(v))
+
+
+def _chain(v):
+    base, names = util.attr_chain(v)
+    return base, names
+
+
+def _clause_e_primitive(c: Check, pcls, prim, modes):
+    """parentheses, prefix operators, primitives: parse_mandatory_primitive evaluated on every answer of the token
+    stream to "( ?" and "prefix operator ?" """
+    ix, fo = c.ix, c.fo
+    where = prim.loc()
+    inl = [ix.class_member(pcls, n) for n in ('consume_optional_start_parentheses', 'consume_optional_prefix_operator')]
+    c.require(all(isinstance(f, FuncDef) for f in inl), 'C06-e: helpers of parse_mandatory_primitive not found')
+    parse = ix.class_member(pcls, 'parse')
+    endp = ix.class_member(pcls, 'consume_mandatory_end_parentheses')
+    c.require(isinstance(parse, FuncDef) and isinstance(endp, FuncDef), 'C06-e: _Parser.parse / end parentheses not found')
+
+    def is_query(d, n, cv):
+        return isinstance(n.func, ast.Attribute) and n.func.attr == _QUERY
+
+    seen = set()
+    for must in (False, True):
+        hooks = ForkHooks(ix, loop_bound=1)
+        hooks.inline_set = set(inl)
+        hooks.fork_on(is_query, [('none', lambda: NONE),
+                                 ('found', lambda: Sym('token', truth=True, nullness=False))])
+        it = Interp(ix, fo, hooks)
+        grammar, tokens = Sym('grammar'), Sym('token-parser')
+        init = ix.class_member(pcls, '__init__')
+        ip = [p_.arg for p_ in init.positional_params()[1:]]
+        c.require(len(ip) == 2, 'C06-e: _Parser.__init__ does not take (grammar, token parser)')
+        given = {}
+        for n in ip:
+            given[n] = grammar if 'grammar' in n else tokens
+        for obj, st in it.instantiate(pcls, State(), given):
+            for p in it.run_function(prim, {prim.positional_params()[1].arg: K(must)}, st, recv=obj):
+                labs = labels_of(p)
+                seen.add(tuple(labs))
+                calls = [e for e in p.trace if e.kind == 'call' and e.func is not None and e.func.cls is pcls
+                         and e.func.name != '__init__']
+                key = 'primitive/%s' % ('-'.join(labs))
+                c.count()
+                if must:
+                    tcalls = [e for e in calls if isinstance(e.node.func, ast.Attribute)
+                              and util.attr_chain(e.data.get('callee_val'))[0] is tokens]
+                    first = tcalls[0] if tcalls else None
+                    ok = first is not None and first.node.func.attr == 'require_is_not_at_eol'
+                    c.expect(ok, 'C06-e', key + '/must-be-on-current-line',
+                             'an expression that must start on the current line is parsed without checking that the '
+                             'line has not ended', where)
+                queries = [e for e in calls if 'label' in e.data]
+                for q in queries:
+                    line = q.data['args'][1] if len(q.data['args']) > 1 else q.data['kwargs'].get('must_be_on_current_line')
+                    c.expect(isinstance(line, K) and line.v is False, 'C06-e', key + '/token-on-any-line',
+                             '`(` / prefix operator looked for with must_be_on_current_line=%s' % util.describe(line), where)
+                if p.kind != 'return':
+                    c.bad('C06-e', key + '/raises', 'parse_mandatory_primitive raises %s' % util.describe(p.val), where)
+                    continue
+                if labs == ['found']:
+                    q0 = queries[0].data['args'][0]
+                    items = it.concrete_items(q0) or []
+                    ok = [x.v for x in items if isinstance(x, K)] == ['(']
+                    pc = [e for e in calls if e.data.get('callee') == parse]
+                    ec = [e for e in calls if e.data.get('callee') == endp]
+                    ok = ok and len(pc) == 1 and len(ec) == 1 and p.trace.index(pc[0]) < p.trace.index(ec[0])
+                    a = pc[0].data['args'][0] if pc and pc[0].data['args'] else None
+                    ok = ok and isinstance(a, K) and a.v == modes[_PAREN] and type(a.v) is type(modes[_PAREN])
+                    o = p.val.origin if isinstance(p.val, Sym) else None
+                    ok = ok and bool(o) and o[0] == 'call' and o[5] == p.trace.index(pc[0])
+                    c.expect(bool(ok), 'C06-e', 'primitive/parentheses',
+                             '`( EXPR )` is not read as: the full grammar in inside-parentheses mode, then a mandatory '
+                             '`)`, giving EXPR itself', where)
+                elif labs == ['none', 'found'] and _is_falsy_operator_path(prim, p, inl[1]):
+                    # the path on which the operator's mk_expression is falsy: infeasible when it is a mandatory
+                    # callable of the operator (obligation below)
+                    po = ix.cls(GR + ':PrefixOperator')
+                    init = ix.class_member(po, '__init__')
+                    ann = [unparse(p_.annotation) for p_ in init.params if p_.arg == 'mk_expression' and p_.annotation]
+                    c.expect(bool(ann) and ann[0].startswith('Callable'), 'C06-e', 'primitive/prefix-operator-callable',
+                             'PrefixOperator.mk_expression is not a mandatory callable (%s)' % ann, po.loc())
+                elif labs == ['none', 'found']:
+                    q1 = queries[1].data['args'][0]
+                    o = q1.origin if isinstance(q1, Sym) else None
+                    ok = bool(o) and o[0] == 'call' and isinstance(o[4].func, ast.Attribute) and o[4].func.attr == 'keys'
+                    rc = [e for e in calls if e.data.get('callee') == prim]
+                    ok = ok and len(rc) == 1
+                    a = None
+                    if rc:
+                        a = rc[0].data['args'][0] if rc[0].data['args'] else rc[0].data['kwargs'].get('must_be_on_current_line')
+                    ok = ok and isinstance(a, K) and a.v is False
+                    ro = p.val.origin if isinstance(p.val, Sym) else None
+                    ok = ok and bool(ro) and ro[0] == 'call' and len(ro[2]) == 1
+                    if ok:
+                        operand = ro[2][0]
+                        oo = operand.origin if isinstance(operand, Sym) else None
+                        ok = bool(oo) and oo[0] == 'call' and oo[5] == p.trace.index(rc[0])
+                        cv = p.trace[ro[5]].data.get('callee_val') if ro[5] is not None else None
+                        base, names = util.attr_chain(cv) if cv is not None else (None, ())
+                        ok = ok and names[-1:] == ('mk_expression',)
+                        sub = cv.origin[1] if isinstance(cv, Sym) and cv.origin and cv.origin[0] == 'attr' else None
+                        so = sub.origin if isinstance(sub, Sym) else None
+                        ok = ok and bool(so) and so[0] == 'index' \
+                             and getattr(so[2], 'event_idx', -1) == p.trace.index(queries[1]) \
+                             and util.attr_chain(so[1])[1][-1:] == ('prefix_operators',)
+                    c.expect(bool(ok), 'C06-e', 'primitive/prefix-operator',
+                             'a prefix operator is not applied to exactly the one following primitive (binds tighter '
+                             'than every infix operator)', where)
+                elif labs == ['none', 'none']:
+                    ro = p.val.origin if isinstance(p.val, Sym) else None
+                    ok = bool(ro) and ro[0] == 'call' and isinstance(ro[4].func, ast.Attribute) \
+                         and ro[4].func.attr == 'parse_mandatory_string_that_must_be_unquoted'
+                    if ok:
+                        handler = [x for x in list(ro[2]) + list(ro[3].values()) if isinstance(x, BoundMethod)]
+                        ok = len(handler) == 1 and handler[0].fd.name == 'parse_primitive' and handler[0].recv is obj
+                    c.expect(bool(ok), 'C06-e', 'primitive/plain', 'a plain primitive is not an unquoted name handed to '
+                                                                   'parse_primitive', where)
+                else:
+                    c.bad('C06-e', key + '/shape', 'unexpected sequence of token questions %s' % labs, where)
+    c.expect(seen == {('found',), ('none', 'found'), ('none', 'none')}, 'C06-e', 'primitive/alternatives',
+             'the alternatives of a primitive are %s (expected: parenthesis, prefix operator, plain)' % sorted(seen), where)
+
+
+def _is_falsy_operator_path(prim: FuncDef, p, consume_prefix: FuncDef) -> bool:
+    """the last decision of the path is `if <result of consume_optional_prefix_operator>:` taken as false"""
+    if not p.guards:
+        return False
+    test, truth = p.guards[-1]
+    if truth or not isinstance(test, ast.Name):
+        return False
+    for kind, value, _ in prim.local_bindings().get(test.id, []):
+        if kind == 'assign' and isinstance(value, ast.Call) and isinstance(value.func, ast.Attribute) \
+                and value.func.attr == consume_prefix.name:
+            return True
+    return False
+
+
+def _clause_e_entry_points(c: Check, pcls, modes):
+    ix, fo = c.ix, c.fo
+    parse = ix.class_member(pcls, 'parse')
+    hooks = Hooks()
+    it = Interp(ix, fo, hooks)
+    entry = ix.class_member(pcls, 'parse_w_maybe_infix_ops')
+    for tag in (_ANY, _PAREN):
+        ok = False
+        paths = it.run_function(parse, {parse.positional_params()[1].arg: K(modes[tag])})
+        if len(paths) == 1 and paths[0].kind == 'return':
+            o = paths[0].val.origin if isinstance(paths[0].val, Sym) else None
+            if o and o[0] == 'call' and o[1] == entry.key and len(o[2]) == 2:
+                a0, a1 = o[2]
+                ok = isinstance(a0, K) and a0.v == modes[tag] and util.attr_chain(a1)[1] == ('grammar', 'infix_ops_inc_precedence')
+        c.expect(ok, 'C06-e', 'parse/all-levels/' + tag,
+                 'parsing an expression does not start from the lowest precedence level of the grammar in the given '
+                 'layout mode', parse.loc())
+    for cname, meth, arg in (('_FullParserOnAnyLineParser', 'parse', modes[_ANY]),
+                             ('_SimpleParserOnAnyLineParser', 'parse_mandatory_primitive', False)):
+        cls = ix.cls(PA + ':' + cname)
+        f = ix.class_member(cls, 'parse_from_token_parser')
+        r = single_return_expr(f) if isinstance(f, FuncDef) else None
+        ok = isinstance(r, ast.Call) and isinstance(r.func, ast.Attribute) and r.func.attr == meth \
+             and isinstance(r.func.value, ast.Call) and ix.callee(f.module, f, r.func.value) == pcls and len(r.args) == 1
+        if ok:
+            v = fo.fold(f.module, f, r.args[0])
+            ok = v == arg and type(v) is type(arg)
+        c.expect(bool(ok), 'C06-e', 'entry/' + cname, '%s does not start the parser with %s(%r)' % (cname, meth, arg),
+                 cls.loc())
 
 
 # ---------------------------------------------------------------- f
